@@ -178,6 +178,11 @@ def _programs_part(g, case, res):
         pos = (len(prog) + sum(map(len, prog))) % (len(prog) + 1)
         kinds = prog[:pos] + ["base"] + prog[pos:]
         phi = pf.CellVariable(g.mesh, U.generic_array(g.dims, tag=313, signed=True), make_bc(g, setup))
+        # what the variable holds before the call is immaterial (no term of these programs is built from it): placeholders
+        # such as NaN, inf or 1e30 ("not computed yet") must not leak into the stored solution
+        prior = (None, np.nan, np.inf, -1e30)[(len(prog) + sum(map(len, prog))) % 4] if not same_object else None
+        if prior is not None:
+            phi.value = prior
         if same_object:
             built = {}
             terms = [built.setdefault(k, env.term(k)) if k in built or kinds.count(k) > 1 else env.term(k) for k in kinds]
